@@ -87,6 +87,17 @@ func main() {
 		oneN, _ = strconv.Atoi(parts[1])
 	}
 	for _, f := range gen.Families {
+		if f == "corpus" {
+			// the fixed regression corpus: seed-independent, same size in every tier, always first, and
+			// part of every run (unless -one selects a history of another family)
+			for n := 0; n < gen.QuickCounts[f]; n++ {
+				if oneFam != "" && (f != oneFam || n != oneN) {
+					continue
+				}
+				jobs = append(jobs, &job{cfg: gen.Cfg{Family: f, N: n, Seed: uint64(n + 1), Tier: *tier}})
+			}
+			continue
+		}
 		fr := master.Fork()
 		count := gen.QuickCounts[f]
 		if *tier == "thorough" {
@@ -107,6 +118,9 @@ func main() {
 				jobs = append(jobs, j)
 			}
 		}
+	}
+	if len(jobs)+len(detJobs) == 0 {
+		fatal("nothing to run (check -one / -families)")
 	}
 
 	start := time.Now()
